@@ -1,4 +1,82 @@
-//! stream `front` — not implemented yet
-pub fn handle(_args: &[&str]) -> Option<String> {
-    None
+//! stream `front` (C14): the whole front end on one text, stage by stage, every stage under
+//! `catch_unwind`
+//!
+//!   front total <hex text> → ok
+//!                          | err parse:<class> <token>
+//!                          | err resolve:<class>
+//!                          | panic <tokenizer|parser|resolver|to_rust|to_protobuf>
+//!
+//! `<token>` is what `parse::Error::token()` carries: `-` (no token) |
+//! `T:<line>:<column>:<hex of text>` | `S:<line>:<column>:<hex of char>`.
+//! The stages are those of `parse fuzz` (harness/src/parse.rs): real `Tokenizer::parse` →
+//! `Model::try_from` → `try_resolve` → `to_rust()` → `to_protobuf()`.  A stack overflow kills the
+//! process (the runner answers `abort` for that request).
+use crate::parse::{parse_err_class, resolve_err_class, text_of};
+use crate::util::*;
+use asn1rs_model::parse::{Token, Tokenizer};
+use asn1rs_model::Model;
+
+fn stage<T>(f: impl FnOnce() -> T) -> Result<T, ()> {
+    std::panic::catch_unwind(std::panic::AssertUnwindSafe(f)).map_err(drop)
+}
+
+fn token_str(t: Option<&Token>) -> String {
+    match t {
+        None => "-".to_string(),
+        Some(t) => {
+            let l = t.location();
+            match t {
+                Token::Text(_, s) => format!("T:{}:{}:{}", l.line(), l.column(), hex(s.as_bytes())),
+                Token::Separator(_, c) => {
+                    let mut b = [0u8; 4];
+                    format!(
+                        "S:{}:{}:{}",
+                        l.line(),
+                        l.column(),
+                        hex(c.encode_utf8(&mut b).as_bytes())
+                    )
+                }
+            }
+        }
+    }
+}
+
+pub fn handle(args: &[&str]) -> Option<String> {
+    Some(match args {
+        ["total", h] => {
+            let text = text_of(h)?;
+            let tokens = match stage(|| Tokenizer::default().parse(&text)) {
+                Ok(t) => t,
+                Err(()) => return Some("panic tokenizer".to_string()),
+            };
+            let model = match stage(|| Model::try_from(tokens)) {
+                Ok(Ok(m)) => m,
+                Ok(Err(e)) => {
+                    return Some(format!(
+                        "err parse:{} {}",
+                        parse_err_class(&e),
+                        token_str(e.token())
+                    ))
+                }
+                Err(()) => return Some("panic parser".to_string()),
+            };
+            let resolved = match stage(|| model.try_resolve()) {
+                Ok(Ok(m)) => m,
+                Ok(Err(e)) => return Some(format!("err resolve:{}", resolve_err_class(&e))),
+                Err(()) => return Some("panic resolver".to_string()),
+            };
+            let rust = match stage(|| resolved.to_rust()) {
+                Ok(m) => m,
+                Err(()) => return Some("panic to_rust".to_string()),
+            };
+            {
+                use asn1rs_model::protobuf::ToProtobufModel;
+                if stage(|| rust.to_protobuf()).is_err() {
+                    return Some("panic to_protobuf".to_string());
+                }
+            }
+            "ok".to_string()
+        }
+        _ => return None,
+    })
 }
